@@ -6244,6 +6244,9 @@ class SFTPServerHandler(SFTPHandler):
         file_obj = self._file_handles.get(handle)
 
         if file_obj:
+            # Don't return more than the maximum read length we advertise
+            length = min(length, MAX_SFTP_READ_LEN)
+
             result = self._server.read(file_obj, offset, length)
 
             if inspect.isawaitable(result):
